@@ -67,6 +67,7 @@ pub struct SimFs {
     /// Reads since the current line started (step budget: a loop of `\input`s that no nesting limit
     /// stops would otherwise run - and allocate - for ever).
     pub line_reads: Cell<u64>,
+    pub read_budget_tripped: Cell<bool>,
     pub writes: Cell<u64>,
     pub faults_fired: RefCell<BTreeMap<&'static str, u64>>,
     /// Log of (path, ok) for every read, for the event log.
@@ -87,6 +88,7 @@ impl SimFs {
         self.reads.set(n + 1);
         self.line_reads.set(self.line_reads.get() + 1);
         if self.line_reads.get() > 2000 {
+            self.read_budget_tripped.set(true);
             std::panic::resume_unwind(Box::new(BudgetExceeded));
         }
         if n % 64 == 0 {
